@@ -8,4 +8,5 @@ func registerAll() {
 	core.Register("C01", execC01)
 	core.Register("C02", execC02)
 	core.Register("C20", execC20)
+	core.Register("C09", execC09)
 }
